@@ -9,7 +9,7 @@
 From Coq Require Import List Arith Bool Lia.
 Import ListNotations.
 From TP Require Import Global.Threads Global.ThreadsProofs Global.SharedName Global.SharedNameProofs
-     Gen.SharedAccess.
+     Gen.SharedAccess Global.Cache Global.CacheProofs.
 
 (* The full statement, for the validators of the generated table: whatever the schedule, every
    thread validating the same field of the same class reads - hence returns - what it does alone.
@@ -81,6 +81,55 @@ Theorem C20_classified_racy : forall e,
                forall m0 m, obs_in m0 tr 0 <> obs_seq m (nth 0 (sample_threads e) []).
 Proof. exact classified_racy_witness. Qed.
 
+(* ---- caches shared by all threads (Global/Cache.v; protocols generated into Gen/CacheAccess.v) ---- *)
+
+(* if every store of every protocol operating on a cache slot stores the completely computed value
+   (a function of the key alone), then under EVERY schedule - any number of threads, any number of
+   pre-emptions, each thread running any of the protocols - every thread that returns, returns the
+   computed value ... *)
+Theorem C20_cache_final_safe : forall ps sched s i r,
+    forallb stores_final ps = true -> slot_ok s ->
+    cresult (crun sched s (cstart ps)) i = Some r -> r = CFinal.
+Proof. exact cache_final_safe. Qed.
+
+(* ... which is what the protocol returns when it runs alone (and it leaves the slot empty or filled
+   with the computed value) *)
+Theorem C20_cache_final_alone : forall p s,
+    stores_final p = true -> slot_ok s ->
+    snd (calone s p) = CFinal /\ slot_ok (fst (calone s p)).
+Proof. exact cache_final_alone. Qed.
+
+(* `calone` is the small-step semantics with only that thread scheduled *)
+Theorem C20_cache_alone_is_run : forall p s,
+    crun (repeat 0 (S (length p))) s [Running p] = (fst (calone s p), [Done (snd (calone s p))]).
+Proof. exact calone_is_crun. Qed.
+
+(* a protocol whose first store puts anything else into the slot (a placeholder, a partially built
+   value): under the constructed schedule a second thread that looks the slot up RETURNS that value *)
+Theorem C20_cache_placeholder_witness : forall pre tag post loc rest,
+    no_store pre = true -> only_local loc = true ->
+    cresult (crun (placeholder_sched pre loc) None
+                  (cstart [pre ++ CStore (COther tag) :: post; loc ++ CLookup :: rest])) 1
+    = Some (COther tag).
+Proof. exact cache_placeholder_witness. Qed.
+
+(* applied to ANY generated table entry through the vm_compute-decided classification *)
+Theorem C20_cache_classified_safe : forall ps sched s i r,
+    cache_classify ps = CacheSafe -> slot_ok s ->
+    cresult (crun sched s (cstart ps)) i = Some r -> r = CFinal.
+Proof. exact cache_classified_safe. Qed.
+
+Theorem C20_cache_classified_racy : forall ps,
+    cache_classify ps = CacheRacy ->
+    exists p q, In p ps /\ In q ps /\
+                exists sched tag, cresult (crun sched None (cstart [p; q])) 1 = Some (COther tag).
+Proof. exact cache_classified_racy. Qed.
+
+Theorem C20_cache_safe_excludes_witness : forall ps sched i tag,
+    cache_classify ps = CacheSafe ->
+    cresult (crun sched None (cstart ps)) i = Some (COther tag) -> False.
+Proof. exact cache_safe_excludes_witness. Qed.
+
 Print Assumptions C20_private_safe.
 Print Assumptions C20_private_b_meaning.
 Print Assumptions C20_idempotent_write_safe.
@@ -90,6 +139,13 @@ Print Assumptions C20_find_race_sound.
 Print Assumptions C20_safe_excludes_race.
 Print Assumptions C20_classified_safe.
 Print Assumptions C20_classified_racy.
+Print Assumptions C20_cache_final_safe.
+Print Assumptions C20_cache_final_alone.
+Print Assumptions C20_cache_alone_is_run.
+Print Assumptions C20_cache_placeholder_witness.
+Print Assumptions C20_cache_classified_safe.
+Print Assumptions C20_cache_classified_racy.
+Print Assumptions C20_cache_safe_excludes_witness.
 
 (* non-vacuity: three threads; cell 1 is written by all with the same constant before being read,
    cell 2 is private to thread 0, cell 3 is only read; the hypothesis holds, and a fully
@@ -116,3 +172,20 @@ Example C20_witness_nonvacuous :
   exists s o, find_race [] [W 1 (WConst [7;0]); R 1; R 1; W 1 (WConst [7;1]); R 1; R 1]
                            [W 1 (WConst [7;0]); R 1; R 1] = Some (s, o).
 Proof. eexists. eexists. vm_compute. reflexivity. Qed.
+
+(* caches, non-vacuity: the protocol of today's aggregated-mapper cache (lookup, compute, store the
+   returned value) satisfies the hypothesis, and three threads fully interleaved all return the computed
+   value; the same protocol with a placeholder reserved first is classified racy and the constructed
+   schedule makes the second thread return the placeholder *)
+Example C20_cache_nonvacuous :
+  let p := [CLookup; CLocal; CStore CFinal] in
+  stores_final p = true /\ cache_classify [p] = CacheSafe /\
+  crun [0; 1; 2; 0; 1; 2; 0; 1; 2; 0; 1; 2] None (cstart [p; p; p])
+  = (Some CFinal, [Done CFinal; Done CFinal; Done CFinal]).
+Proof. vm_compute. repeat split; reflexivity. Qed.
+
+Example C20_cache_witness_nonvacuous :
+  let p := [CLookup; CStore (COther 263); CLocal; CStore CFinal] in
+  cache_classify [p] = CacheRacy /\ snd (calone None p) = CFinal /\
+  cresult (crun (placeholder_sched [CLookup] []) None (cstart [p; p])) 1 = Some (COther 263).
+Proof. vm_compute. repeat split; reflexivity. Qed.
